@@ -79,7 +79,7 @@ class GroupEvents(FnSpec):
     def __init__(self, W, prop=PROP):
         self.W, self.world, self.prop = W, W, prop
         self.var_types = {"grouped": W.LItem}
-        self.loops = {1: LoopSpec("event_list", self.inv_outer, modifies=[("call", self.havoc_q)], ghost_start=self.gs, ghost_end=self.ge),
+        self.loops = {1: LoopSpec("event_list", self.inv_outer, modifies=[("call", self.havoc_q)], ghost_start=self.gs, ghost_end=self.ge, every_element=True),
                       2: LoopSpec("enumerate(grouped)", self.inv_inner)}
         self.expected_covers = ["loop1.body", "loop1.end", "loop2.body", "loop2.end", "exit"]
 
@@ -216,7 +216,7 @@ class BufferRun(FnSpec):
     def __init__(self, W, prop=PROP):
         self.W, self.world, self.prop = W, W, prop
         self.loops = {1: LoopSpec("self.should_keep_running() and (not deleted_self)", self.inv_outer, modifies=[("ghost", "puts")]),
-                      2: LoopSpec("grouped_events", self.inv_inner, modifies=[("ghost", "puts")], ghost_start=self.gs, ghost_end=self.ge)}
+                      2: LoopSpec("grouped_events", self.inv_inner, modifies=[("ghost", "puts")], ghost_start=self.gs, ghost_end=self.ge, every_element=True)}
         self.expected_covers = ["loop1.body", "loop1.end", "loop2.body", "loop2.end", "exit"]
 
     def globals(self):
